@@ -4,6 +4,7 @@ import (
 	"context"
 	"encoding/hex"
 	"fmt"
+	"os"
 	"sort"
 	"sync"
 	"time"
@@ -284,6 +285,9 @@ func (w *orchWorld) await(sid int, want ...string) string {
 				}
 			}
 		case <-deadline:
+			if os.Getenv("VERIF_DEBUG") != "" {
+				fmt.Fprintf(os.Stderr, "await timeout sid=%d want=%v at=%s result=%s plan=%+v\n", sid, want, se.at, se.result, se.plan)
+			}
 			return "stuck"
 		}
 	}
@@ -388,8 +392,18 @@ func (w *orchWorld) start(plan jPlan) jOStep {
 		}
 		se.done <- classifyErr(err, ctx)
 	}()
-	if r := w.await(plan.SID, "done", "gate", "s2fail", "backend"); r == "stuck" {
+	r0 := w.await(plan.SID, "done", "gate", "s2fail", "backend")
+	if r0 == "stuck" {
 		st.Stuck = "start"
+	}
+	if r0 == "s2fail" && plan.Kind == "sign" {
+		// a failed pre-signing synchronisation makes Sign return its error
+		if w.await(plan.SID, "done") == "stuck" {
+			st.Stuck = "start: Sign did not return after the pre-signing synchronisation failed"
+		}
+		if se.at != "finished" {
+			w.await(plan.SID, "s1done")
+		}
 	}
 	if se.result != "" && len(se.result) > 6 && se.result[:6] == "panic:" {
 		st.Panic, st.PanicV = true, se.result[6:]
@@ -462,8 +476,14 @@ func (w *orchWorld) release(sid int) jOStep {
 		if se.result == "" {
 			want = append(want, "done")
 		}
-		if r := w.await(sid, want...); r == "stuck" {
+		r0 := w.await(sid, want...)
+		if r0 == "stuck" {
 			st.Stuck = "release"
+		}
+		if r0 == "s2fail" && se.plan.Kind == "sign" && se.result == "" {
+			if w.await(sid, "done") == "stuck" {
+				st.Stuck = "release: Sign did not return after the pre-signing synchronisation failed"
+			}
 		}
 		// when the continuation produced the API result, wait for the goroutine to wind down too
 		if se.at != "finished" && se.at != "backend" && se.at != "s2fail" {
